@@ -168,6 +168,7 @@ Init ==
 (* (the only case the code stores without copying); otherwise a list, a     *)
 (* view, a Fortran-ordered or a float32 array                                *)
 SetFC(lay, keep, own) ==
+  /\ keep \/ own     \* (the form only matters if the caller keeps the object)
   /\ layout' = lay
   /\ held' = LET hs == Unalias(held, {"fc"})
              IN IF keep /\ Len(hs) < MaxHeld
@@ -324,11 +325,12 @@ DmKinds == {"qp", "qpgv", "dmq", "gvq", "mesh", "meshgv", "band", "bandgv"}
            \cup (IF Results THEN {"meshfull", "meshlazy", "meshiter"} ELSE {})
 MeshKinds == {"mesh", "meshgv", "meshfull", "meshlazy", "meshiter"}
 (* queries on the mesh held by the object (consumers): thermal properties,   *)
-(* total DOS, moment, get_mesh_dict; projected DOS, thermal displacements    *)
-(* (matrices) need the full mesh, the last two also take an IterMesh;        *)
+(* total DOS, moment, get_mesh_dict; projected DOS and thermal displacements *)
+(* ("td", also the displacement matrices) need the full mesh, "td" also      *)
+(* takes an IterMesh;                                                        *)
 (* "rdq": get_random_displacements_at_temperature on the generator           *)
-Consumers == IF Results THEN {"tp", "tdos", "moment", "meshdict", "pdos", "td", "tdm"} ELSE {}
-NeedsFull(k) == k \in {"pdos", "td", "tdm"}
+Consumers == IF Results THEN {"tp", "tdos", "moment", "meshdict", "pdos", "td"} ELSE {}
+NeedsFull(k) == k \in {"pdos", "td"}
 QueryKinds == DmKinds \cup Consumers \cup (IF Results THEN {"rdq"} ELSE {})
 UsesGV(k) == k \in {"qpgv", "gvq", "meshgv", "bandgv"}
 Computes(k) == k \notin {"meshlazy", "meshiter"}
@@ -351,7 +353,7 @@ QueryEnabled(k) ==
     [] k = "rdq" -> rs.rd # "none"
     [] OTHER -> /\ rs.mesh.st # "none"
                 /\ NeedsFull(k) => rs.mesh.full
-                /\ rs.mesh.kind = "iter" => k \in {"td", "tdm"}
+                /\ rs.mesh.kind = "iter" => k = "td"
 
 (* REQUIREMENT side of a query: what a freshly constructed object given the  *)
 (* current force constants, NAC parameters and masses answers (after the     *)
@@ -450,7 +452,7 @@ EnvLabels == {"MutateHandle", "Drop", "MutateCopy"}
 EnvNext == (\E i \in 1..MaxHeld : MutateHandle(i) \/ Drop(i)) \/ MutateCopy
 
 OpNext ==
-  \/ \E lay \in Layouts, keep \in BOOLEAN, own \in BOOLEAN : (keep \/ own) /\ SetFC(lay, keep, own)
+  \/ \E lay \in Layouts, keep \in BOOLEAN, own \in BOOLEAN : SetFC(lay, keep, own)
   \/ \E m \in {"wang", "gonze"}, keep \in BOOLEAN : SetNAC(m, keep)
   \/ ClearNAC
   \/ \E keep \in BOOLEAN : SetMasses(keep)
